@@ -2,13 +2,25 @@
 
 P_sib -- property C11 (SplitIntoBins analyses each cell on exactly its sub-flow; context.variable describes the argument
 variable; MapBins / IterateBins) and the second sentence of C04 (every context yielded by compute() is a deep copy made
-for that very yield).  Sidecar contracts of lena/structures/split_into_bins.py: _MdSeqMap, SplitIntoBins.__init__ /
-compute, MapBins.run, IterateBins.run.  (SplitIntoBins.fill, init_bins, get_bin_on_value: contracts/P_hist.py, C06.py.)
+for that very yield).  Sidecar contracts of lena/structures/split_into_bins.py and hist_functions.py:
+  _MdSeqMap.next / __next__ / __iter__   the k-th result of every cell, stops with the shortest (1-d; 2-d with two rows)
+  SplitIntoBins.__init__                 1-d / 2-d edges: every cell its own deep copy of the sequence, raise conditions
+  SplitIntoBins.compute                  1-d; 2-d with two rows of cells (any number of columns)
+  MapBins.run#cells                      one selected 1-d histogram / 2-d histogram with two rows (the selected branch that
+                                         P_sel.py abstracts): private copy of the sequence per cell, edges and context copied
+  IterateBins.run#cells                  one selected 1-d histogram: every cell once, in order, with its own edges / context
+  get_example_bin#cells, iter_bins_with_edges#cells, cell_to_string, histogram.__init__ for bins that hold results
+(SplitIntoBins.fill, init_bins, get_bin_on_value: contracts/P_hist.py, C06.py.  SplitIntoBins has no reset() in /repo.)
 
-Per-cell analyses are abstract FillCompute elements (DESIGN 2.3): el_fill / el_compute denotations over the ghost element
-states; `el_compute(cell, elstate(cell))` is the list of results of THAT cell.  The list of the cells' compute()
-generators that lena.math.md_map builds is the engine's list-of-generators object (pyvc/lib_sib.py: gen_len, gen_content,
-gen_pulled)."""
+Per-cell analyses are abstract FillCompute elements (DESIGN 2.3): el_fill / el_compute / el_run denotations over the ghost
+element states; `el_compute(cell, elstate(cell))` is the list of results of THAT cell.  The list of the cells' generators
+that lena.math.md_map builds (inlined from its real AST) is the engine's list-of-generators object (pyvc/lib_sib.py:
+gen_len, gen_content, gen_pulled, gen_maker).
+
+FINDING (unchanged tree, not expressible as a failing obligation: the typing assumption `v_not_list` excludes it):
+MapBins.__init__ names `list` as a bin type (`select_bins=[lena.math.vector3, list]`: `selects histograms where bins are
+vectors or lists`), but lena.math.md_map descends into cells that ARE lists: for histogram([0, 1, 2], bins=[[1, 2], [3, 4]])
+MapBins(seq, select_bins=[list]) applies seq to 1, 2, 3, 4 (the items of the cells) instead of to the two cells."""
 from pyvc.contracts import Contract, LoopSpec, ClassSpec
 
 SB = "lena/structures/split_into_bins.py"
@@ -29,6 +41,10 @@ def register(ix):
     register_md_seq_map(ix)
     register_init(ix)
     register_compute(ix)
+    register_example_bin(ix)
+    register_map_bins(ix)
+    register_iterate_bins(ix)
+    register_cell_to_string(ix)
 
 
 # ---------------------------------------------------------------------------------------------- _MdSeqMap
@@ -36,27 +52,53 @@ def register_md_seq_map(ix):
     """class docstring: `Multidimensional mapping of a Sequence`; __init__: `generator is mapped to array's contents.  Example
     when a bin is a sequence: generator=lambda cell: cell.compute()`.  task text / SplitIntoBins.compute docstring (`In
     Python 3 the minimum number of compute() among all bins is used`): next() hands out the k-th result of EVERY cell, as a
-    list of the same shape, and stops with the shortest cell."""
-    ix.add_class(ClassSpec("_MdSeqMap", SB, fields={"_generators": "IterLst[V]"}))
+    list of the same shape, and stops with the shortest cell.
+    Two views of the object: `_MdSeqMap_g` -- the generators of a 1-dimensional array of cells (any length);
+    `_MdSeqMap_r2` -- those of a 2-dimensional array with two rows (any number of columns)."""
+    ix.add_class(ClassSpec("_MdSeqMap", SB, fields={}))
+    ix.add_class(ClassSpec("_MdSeqMap_g", SB, fields={"_generators": "IterLst[V]"}, alias_of="_MdSeqMap"))
+    ix.add_class(ClassSpec("_MdSeqMap_r2", SB, fields={"_generators": "PyList[2,IterLst[V]]"}, alias_of="_MdSeqMap"))
     # the constructor maps a caller-supplied function over the cells: executed in place at its call sites
     ix.add(Contract(SB, "_MdSeqMap.__init__", props=[], params={"self": "Any", "generator": "Any", "array": "Any"}, inline=True))
-    SAME = ["gen_len({g}) == old(gen_len({g}))".format(g=G),
-            "all(gen_content({g}, k) == old(gen_content({g}, k)) for k in range(gen_len({g})))".format(g=G)]
-    STOP = "any(gen_pulled({g}, k) >= len(gen_content({g}, k)) for k in range(gen_len({g})))".format(g=G)
+
+    def same(g):
+        return ["gen_len({g}) == old(gen_len({g}))".format(g=g),
+                "all(gen_content({g}, k) == old(gen_content({g}, k)) for k in range(gen_len({g})))".format(g=g),
+                "all(gen_maker({g}, k) is old(gen_maker({g}, k)) for k in range(gen_len({g})))".format(g=g)]
+
+    def stop(g):
+        return "any(gen_pulled({g}, k) >= len(gen_content({g}, k)) for k in range(gen_len({g})))".format(g=g)
+
+    def step(g, r):
+        return [
+            # the next result of every cell, cell by cell
+            "len(%s) == gen_len(%s)" % (r, g),
+            "all({r}[k] == gen_content({g}, k)[old(gen_pulled({g}, k))] for k in range(len({r})))".format(g=g, r=r),
+            # every cell's generator moved on by exactly one
+            "all(gen_pulled({g}, k) == old(gen_pulled({g}, k)) + 1 for k in range(gen_len({g})))".format(g=g)]
 
     def nxt(qual):
-        return Contract(
-            SB, qual, props=["C11"],
-            params={"self": "Self[_MdSeqMap]"}, result="Lst[V]",
+        g1 = Contract(
+            SB, qual, name="%s[1-d array of cells]" % qual,
+            params={"self": "Self[_MdSeqMap_g]"}, result="Lst[V]",
             # stops with the shortest: as soon as one cell has no further result
-            raises={"StopIteration": STOP},
-            ensures=SAME + [
-                # the next result of every cell, cell by cell
-                "len(result) == gen_len(%s)" % G,
-                "all(result[k] == gen_content({g}, k)[old(gen_pulled({g}, k))] for k in range(len(result)))".format(g=G),
-                # every cell's generator moved on by exactly one
-                "all(gen_pulled({g}, k) == old(gen_pulled({g}, k)) + 1 for k in range(gen_len({g})))".format(g=G)],
+            raises={"StopIteration": stop(G)},
+            exc_ensures={"StopIteration": same(G)},      # (which generators there are does not change either way)
+            ensures=same(G) + step(G, "result"),
             modifies=["self._generators"])
+        R0, R1 = G + "[0]", G + "[1]"
+        r2 = Contract(
+            SB, qual, name="%s[2-d array of cells, two rows]" % qual,
+            params={"self": "Self[_MdSeqMap_r2]"}, result="PyList[2,Lst[V]]",
+            # (a row without cells would be mapped to [] for ever: SplitIntoBins never builds one)
+            requires=["not (gen_len(%s) == 0)" % R0, "not (gen_len(%s) == 0)" % R1],
+            raises={"StopIteration": "%s or %s" % (stop(R0), stop(R1))},
+            exc_ensures={"StopIteration": same(R0) + same(R1)},
+            ensures=same(R0) + same(R1) + step(R0, "result[0]") + step(R1, "result[1]") + [
+                # (ground form of `same shape`, for callers that branch on the emptiness of a row)
+                "not (len(result[0]) == 0)", "not (len(result[1]) == 0)"],
+            modifies=["self._generators"])
+        return Contract(SB, qual, props=["C11"], cases=[g1, r2])
     ix.add(nxt("_MdSeqMap.next"))
     ix.add(nxt("_MdSeqMap.__next__"))
     ix.add(Contract(SB, "_MdSeqMap.__iter__", props=["C11"], params={"self": "Self[_MdSeqMap]"}, result="Inst[_MdSeqMap]",
@@ -160,7 +202,7 @@ def register_compute(ix):
     # the yielded histogram holds flow values (the cells' results), not numbers
     k = ix.by_key[(HI, "histogram.__init__")]
     if not any(c.name == "histogram.__init__[dim=1, bins of results]" for c in k.cases):
-        k.cases.insert(0, Contract(
+        k.cases.append(Contract(
             HI, "histogram.__init__", name="histogram.__init__[dim=1, bins of results]",
             params={"self": "Self[histogram0]", "edges": "Lst[Real]", "bins": "Lst[V]", "initial_value": "Real"},
             defaults={"initial_value": 0},
@@ -170,17 +212,34 @@ def register_compute(ix):
                      "self.dim == 1", "self.nbins[0] == len(edges) - 1", "self.ranges[0][0] == edges[0]",
                      "self.ranges[0][1] == edges[len(edges) - 1]"],
             modifies=["self.edges", "self.bins", "self.n_out_of_range", "self.dim", "self._scale", "self.nbins", "self.ranges"]))
-    RK = "el_compute(self.bins[k], elstate(self.bins[k]))"
     C0 = "self._cur_context"
     V = "self._arg_var.var_context"
     YC = "yielded[1]"
+    CONTEXT = [
+        # C04: a new deep copy for every yield
+        "is_deep_copy(%s)" % YC, "is_fresh(%s)" % YC, "made_in_iteration(%s, 0)" % YC,
+        # context: existing values preserved, context.variable describes the argument variable
+        "all_keys(lambda k: k == 'variable' or item(%s, k) == item(%s, k))" % (YC, C0),
+        nohist(C0) + " implies %s['variable'] == %s" % (YC, V),
+        "all_keys(lambda k: k == 'compose' or item(%s, k) == absent() or item(%s['variable'], k) == item(%s, k))" % (V, YC, V),
+        # ... with the history of a typed variable applied after typed variables (C14): compose lists the types in
+        # application order, the attributes of every composed variable stay available under its type, nothing more
+        hist(C0) + " and " + typed(V) + " implies klist(%s['variable']['compose']) == compose_ref(%s['variable'], %s)" % (YC, C0, V),
+        hist(C0) + " and " + typed(V) + " implies all_keys(lambda k: k == 'compose' or "
+        "item({y}['variable'], k) == (item({v}, k) if item({v}, k) != absent() else "
+        "(item({c}['variable'], k) if k in klist({y}['variable']['compose']) else absent())))".format(y=YC, v=V, c=C0),
+        # the stored context and the variable are not changed
+        "%s == old(%s)" % (C0, C0), "%s == old(%s)" % (V, V)]
+    UNCHANGED = ["%s == old(%s)" % (C0, C0), "%s == old(%s)" % (V, V), "elstate_same()"]
+    # the stored context is one that variables produce (what Variable._update_context accepts)
+    REQ = ["'variable' in %s implies %s" % (C0, WF.format(x=C0 + "['variable']"))]
+    # ---- 1-dimensional edges
+    RK = "el_compute(self.bins[k], elstate(self.bins[k]))"
     GEN = "generators._generators"
-    ix.add(Contract(
-        SB, "SplitIntoBins.compute", props=["C11", "C04"], dict_model="Val", name="SplitIntoBins.compute[1-d]",
+    one = Contract(
+        SB, "SplitIntoBins.compute", dict_model="Val", name="SplitIntoBins.compute[1-d]",
         ghost={"elstate": True},
-        params={"self": "Self[SplitIntoBins_c1]"}, generator=True, yields="Any",
-        # the stored context is one that variables produce (what Variable._update_context accepts)
-        requires=["'variable' in %s implies %s" % (C0, WF.format(x=C0 + "['variable']"))],
+        params={"self": "Self[SplitIntoBins_c1]"}, generator=True, yields="Any", requires=REQ,
         loops={0: LoopSpec(invariant=[
             "gen_len(%s) == len(self.bins)" % GEN,
             "all(gen_content(%s, k) == %s for k in range(len(self.bins)))" % (GEN, RK),
@@ -192,24 +251,332 @@ def register_compute(ix):
             "yielded[0].edges is self.edges",
             "len(yielded[0].bins) == len(self.bins)",
             "all(yielded[0].bins[k] == %s[yield_count()] for k in range(len(self.bins)))" % RK,
-            # C04: a new deep copy for every yield
-            "is_deep_copy(%s)" % YC, "is_fresh(%s)" % YC, "made_in_iteration(%s, 0)" % YC,
-            # context: existing values preserved, context.variable describes the argument variable
-            "all_keys(lambda k: k == 'variable' or item(%s, k) == item(%s, k))" % (YC, C0),
-            nohist(C0) + " implies %s['variable'] == %s" % (YC, V),
-            "all_keys(lambda k: k == 'compose' or item(%s, k) == absent() or item(%s['variable'], k) == item(%s, k))" % (V, YC, V),
-            # ... with the history of a typed variable applied after typed variables (C14): compose lists the types in
-            # application order, the attributes of every composed variable stay available under its type, nothing more
-            hist(C0) + " and " + typed(V) + " implies klist(%s['variable']['compose']) == compose_ref(%s['variable'], %s)" % (YC, C0, V),
-            hist(C0) + " and " + typed(V) + " implies all_keys(lambda k: k == 'compose' or "
-            "item({y}['variable'], k) == (item({v}, k) if item({v}, k) != absent() else "
-            "(item({c}['variable'], k) if k in klist({y}['variable']['compose']) else absent())))".format(y=YC, v=V, c=C0),
-            # the stored context and the variable are not changed
-            "%s == old(%s)" % (C0, C0), "%s == old(%s)" % (V, V),
-        ],
+        ] + CONTEXT,
         ensures=[
             # `the minimum number of compute() among all bins is used`
             "all(len(%s) >= yield_count() for k in range(len(self.bins)))" % RK,
-            "any(len(%s) == yield_count() for k in range(len(self.bins)))" % RK,
-            "%s == old(%s)" % (C0, C0), "%s == old(%s)" % (V, V), "elstate_same()"],
+            "any(len(%s) == yield_count() for k in range(len(self.bins)))" % RK] + UNCHANGED,
+        modifies=[])
+    # ---- 2-dimensional edges, two rows of cells (any number of columns)
+    DIST2 = ("all(all(implies(i != j, self.bins[{r}][i] is not self.bins[{r}][j]) for j in range(len(self.bins[{r}]))) "
+             "for i in range(len(self.bins[{r}])))")
+    ix.add_class(ClassSpec(
+        "SplitIntoBins_c2r", SB, alias_of="SplitIntoBins",
+        fields={"bins": "PyList[2,Lst[Obj]]", "edges": "PyList[2,Lst[Real]]", "_arg_var": "Inst[Variable]", "_cur_context": "Dict"},
+        invariant=["len(self.edges[0]) == 3", "len(self.edges[1]) >= 2", mono("self.edges[0]"), mono("self.edges[1]"),
+                   INCR.format(a="self.edges[0]"), INCR.format(a="self.edges[1]"),
+                   "len(self.bins[0]) == len(self.edges[1]) - 1", "len(self.bins[1]) == len(self.edges[1]) - 1",
+                   DIST2.format(r=0), DIST2.format(r=1),
+                   "all(all(self.bins[0][i] is not self.bins[1][j] for j in range(len(self.bins[1]))) for i in range(len(self.bins[0])))",
+                   "isdict(self._cur_context)",
+                   "not isinstance(self.bins[0][0], list)", "not isinstance(self.bins[1][0], list)",
+                   "not (len(self.bins[0]) == 0)", "not (len(self.bins[1]) == 0)",
+                   "isdict(self._arg_var.var_context)"] + wf_var("self._arg_var.var_context")))
+    if not any(c.name == "histogram.__init__[dim=2, two rows of results]" for c in k.cases):
+        k.cases.append(Contract(
+            HI, "histogram.__init__", name="histogram.__init__[dim=2, two rows of results]",
+            params={"self": "Self[histogram0]", "edges": "PyList[2,Lst[Real]]", "bins": "PyList[2,Lst[V]]", "initial_value": "Real"},
+            defaults={"initial_value": 0},
+            # `a simple check of the shape of bins is done`: the number of rows
+            raises={"LenaValueError": " or ".join("len(edges[%d]) <= 1 or not %s" % (d, INCR.format(a="edges[%d]" % d))
+                                                  for d in range(2)) + " or len(edges[0]) != 3"},
+            ensures=["self.edges is edges", "self.bins is bins", "self.n_out_of_range == 0", "self._scale is None",
+                     "self.dim == 2", "self.nbins[0] == len(edges[0]) - 1", "self.nbins[1] == len(edges[1]) - 1"],
+            modifies=["self.edges", "self.bins", "self.n_out_of_range", "self.dim", "self._scale", "self.nbins", "self.ranges"]))
+    RIJ = "el_compute(self.bins[{r}][k], elstate(self.bins[{r}][k]))"
+    G2 = "generators._generators[{r}]"
+
+    def rows(body):
+        return [body.format(r=0, g=G2.format(r=0), rk=RIJ.format(r=0)), body.format(r=1, g=G2.format(r=1), rk=RIJ.format(r=1))]
+    two = Contract(
+        SB, "SplitIntoBins.compute", dict_model="Val", name="SplitIntoBins.compute[2-d, two rows]",
+        ghost={"elstate": True, "fold_literals": True},
+        params={"self": "Self[SplitIntoBins_c2r]"}, generator=True, yields="Any", requires=REQ,
+        loops={0: LoopSpec(invariant=
+                           rows("gen_len({g}) == len(self.bins[{r}])") + rows("not (gen_len({g}) == 0)")
+                           + rows("all(gen_content({g}, k) == {rk} for k in range(len(self.bins[{r}])))")
+                           + rows("all(gen_pulled({g}, k) == yield_count() for k in range(len(self.bins[{r}])))")
+                           + rows("all(len({rk}) >= yield_count() for k in range(len(self.bins[{r}])))"))},
+        at_yield=[
+            "isinstance(yielded, tuple) and len(yielded) == 2",
+            "yielded[0].edges is self.edges", "len(yielded[0].bins) == 2",
+        ] + rows("len(yielded[0].bins[{r}]) == len(self.bins[{r}])")
+          # cell (r, k) holds the yield_count()-th result of the analysis of cell (r, k)
+          + rows("all(yielded[0].bins[{r}][k] == {rk}[yield_count()] for k in range(len(self.bins[{r}])))") + CONTEXT,
+        ensures=rows("all(len({rk}) >= yield_count() for k in range(len(self.bins[{r}])))") + [
+            "any(len(%s) == yield_count() for k in range(len(self.bins[0]))) or "
+            "any(len(%s) == yield_count() for k in range(len(self.bins[1])))" % (RIJ.format(r=0), RIJ.format(r=1))] + UNCHANGED,
+        modifies=[])
+    ix.add(Contract(SB, "SplitIntoBins.compute", props=["C11", "C04"], dict_model="Val", cases=[one, two]))
+
+
+# ---------------------------------------------------------------------------------------------- get_example_bin
+def register_example_bin(ix):
+    """docstring: `Return bin with zero index on each axis of the histogram bins.  For example, if the histogram is
+    two-dimensional, return hist[0][0].  struct can be a histogram or an array of bins.`"""
+    ix.add_class(ClassSpec("histogram_cells", HI, alias_of="histogram",
+                           fields={"edges": "Lst[Real]", "bins": "Lst[V]", "dim": "Int"},
+                           invariant=["len(self.edges) >= 2", INCR.format(a="self.edges"),
+                                      "len(self.bins) == len(self.edges) - 1", "self.dim == 1", "not (len(self.bins) == 0)"]))
+    cases = [
+        Contract(HF, "get_example_bin", name="get_example_bin[1-d histogram of cells]", ghost={"v_not_list": True},
+                 params={"struct": "Inst[histogram_cells]"}, result="V",
+                 ensures=["result == struct.bins[0]"], modifies=[]),
+        Contract(HF, "get_example_bin", name="get_example_bin[list of cells]", ghost={"v_not_list": True},
+                 params={"struct": "Lst[V]"}, result="V", requires=["len(struct) >= 1"],
+                 ensures=["result == struct[0]"], modifies=[]),
+    ]
+    ix.add_class(ClassSpec("histogram_cells2", HI, alias_of="histogram",
+                           fields={"edges": "PyList[2,Lst[Real]]", "bins": "PyList[2,Lst[V]]", "dim": "Int"},
+                           invariant=["len(self.edges[0]) == 3", "len(self.edges[1]) >= 2", INCR.format(a="self.edges[0]"),
+                                      INCR.format(a="self.edges[1]"), "len(self.bins[0]) == len(self.edges[1]) - 1",
+                                      "len(self.bins[1]) == len(self.edges[1]) - 1", "self.dim == 2",
+                                      "not (len(self.bins[0]) == 0)", "not (len(self.bins[1]) == 0)"]))
+    cases += [
+        Contract(HF, "get_example_bin", name="get_example_bin[2-d histogram of cells, two rows]",
+                 ghost={"v_not_list": True, "fold_literals": True},
+                 params={"struct": "Inst[histogram_cells2]"}, result="V",
+                 ensures=["result == struct.bins[0][0]"], modifies=[]),
+        Contract(HF, "get_example_bin", name="get_example_bin[two rows of cells]", ghost={"v_not_list": True},
+                 params={"struct": "PyList[2,Lst[V]]"}, result="V", requires=["len(struct[0]) >= 1"],
+                 ensures=["result == struct[0][0]"], modifies=[]),
+    ]
+    ix.add(Contract(HF, "get_example_bin", qualkey="get_example_bin#cells", props=["C11"], cases=cases))
+    cur = ix.by_key.get((HF, "get_example_bin"))
+    if cur is None:
+        ix.add(Contract(HF, "get_example_bin", props=[], cases=list(cases)))
+    else:
+        for c in cases:
+            if not any(x.name == c.name for x in cur.cases):
+                cur.cases.insert(0, c)
+
+
+# ---------------------------------------------------------------------------------------------- MapBins.run (selected branch)
+CF = "lena/context/functions.py"
+
+
+def register_map_bins(ix):
+    """class docstring: `Transform bin content of histograms`; __init__: `seq is a sequence or an element applied to bin
+    contents`; run: `context.value is updated with bin context (if that exists). ... an arbitrary bin is taken and contexts
+    of all other bins are ignored.`  C11: `MapBins returns a histogram of identical shape and edges whose every cell is the
+    sequence applied to the corresponding cell` -- by a PRIVATE deep copy of the sequence per cell (`copy.deepcopy(self._seq)
+    .run([cell])`), the histogram rebuilt on a deep copy of the edges, the context deep-copied.
+    The pass-through of values that are not selected, the order and the laziness for arbitrary flows are in P_sel.py (C10);
+    here: a flow of ONE selected 1-dimensional histogram."""
+    ix.add_class(ClassSpec("MapBins_c", SB, alias_of="MapBins",
+                           fields={"_seq": "Obj", "_select_bins": "Inst[Selector]",
+                                   "_get_example_bin": "Def[lena.structures.hist_functions.get_example_bin]",
+                                   "_drop_bins_context": "Bool"}))
+    H = "flow[0][0]"
+    C = "flow[0][1]"
+
+    def build(name, hist_spec, nrows):
+        """nrows == 0: a 1-dimensional histogram; nrows == 2: a 2-dimensional one with two rows of cells"""
+        R = list(range(nrows)) if nrows else [None]
+        GEN = lambda r: "generators._generators" + ("" if r is None else "[%d]" % r)
+        BINS = lambda r: "%s.bins" % H + ("" if r is None else "[%d]" % r)
+        OUT = lambda r: "yielded[0].bins" + ("" if r is None else "[%d]" % r)
+        MK = lambda r: "gen_maker(%s, k)" % GEN(r)
+        RUNK = lambda r: "el_run(%s, [%s[k]])" % (MK(r), BINS(r))
+        X = "%s[0]" % BINS(R[0])
+        B0 = "vctx(el_run(gen_maker(%s, 0), [%s[0]])[yield_count()])" % (GEN(R[0]), BINS(R[0]))
+        allrows = lambda f: [f(r) for r in R]
+        PRIVATE = (
+            # every cell is run through its own deep copy of the sequence, made during this call
+            allrows(lambda r: "all(copy_of(%s, self._seq) and new_object(%s) for k in range(len(%s)))" % (MK(r), MK(r), BINS(r)))
+            + allrows(lambda r: "all(all(implies(k != l, gen_maker({g}, k) is not gen_maker({g}, l)) for l in range(len({b}))) "
+                                "for k in range(len({b})))".format(g=GEN(r), b=BINS(r)))
+            + (["all(all(gen_maker(%s, k) is not gen_maker(%s, l) for l in range(len(%s))) for k in range(len(%s)))" % (
+                GEN(0), GEN(1), BINS(1), BINS(0))] if nrows else [])
+            + allrows(lambda r: "all(gen_content(%s, k) == %s for k in range(len(%s)))" % (GEN(r), RUNK(r), BINS(r))))
+        SHAPE = ["len(yielded[0].bins) == %s" % ("len(%s.bins)" % H if not nrows else "2")] + (
+            allrows(lambda r: "len(%s) == len(%s)" % (OUT(r), BINS(r))) if nrows else [])
+        EDGES = ["yielded[0].edges == %s.edges" % H, "yielded[0].edges is not %s.edges" % H] if not nrows else [
+            "yielded[0].edges is not %s.edges" % H, "len(yielded[0].edges) == 2"] + [
+            cl for d in range(2) for cl in ("yielded[0].edges[%d] == %s.edges[%d]" % (d, H, d),
+                                            "yielded[0].edges[%d] is not %s.edges[%d]" % (d, H, d))]
+        SHORTEST = " or ".join("any(len(gen_content(local(generators)._generators%s, k)) == yield_count() for k in range(len(%s)))"
+                               % ("" if r is None else "[%d]" % r, BINS(r)) for r in R)
+        return Contract(
+            SB, "MapBins.run", dict_model="Val", name="MapBins.run[one selected %s]" % name,
+            # (contexts of the results: `value` sub-contexts are dictionaries all the way down -- what update_nested requires)
+            ghost={"elstate": True, "v_not_list": True, "alloc": True, "ctx_wf": ["kchain(c, 'value')"], "fold_literals": bool(nrows)},
+            params={"self": "Self[MapBins_c]", "flow": "PyList[1,Tuple[Inst[%s],Dict]]" % hist_spec},
+            generator=True, yields="Any",
+            # the histogram is selected: the bin selector accepts the example bin
+            requires=[inv.replace("self.", H + ".") for inv in ix.classes[hist_spec].invariant] + [
+                "isdict(%s)" % C, "not el_call_raises(self._select_bins._selector, %s)" % X,
+                "el_call(self._select_bins._selector, %s)" % X],
+            loops={1: LoopSpec(invariant=
+                               allrows(lambda r: "gen_len(%s) == len(%s)" % (GEN(r), BINS(r)))
+                               + (allrows(lambda r: "not (gen_len(%s) == 0)" % GEN(r)) if nrows else [])
+                               + allrows(lambda r: "all(gen_pulled(%s, k) == yield_count() for k in range(len(%s)))" % (GEN(r), BINS(r)))
+                               + allrows(lambda r: "all(len(gen_content(%s, k)) >= yield_count() for k in range(len(%s)))" % (GEN(r), BINS(r)))
+                               + ["yield_count() == _i1"] + PRIVATE)},
+            # (a selected histogram is never handed on as it is: every yield happens in the loop over the cells' results)
+            at_yield=["in_loop(1)"] + ["in_loop(1) implies " + cl for cl in [
+                "isinstance(yielded, tuple) and len(yielded) == 2",
+                # identical shape and edges; the edges are a deep copy
+            ] + EDGES + SHAPE
+              # every cell is the sequence applied to the corresponding cell (its yield_count()-th result; the data part when
+              # the contexts of the bins are dropped)
+              + allrows(lambda r: "self._drop_bins_context implies all(%s[k] == dataof(%s[yield_count()]) for k in range(len(%s)))"
+                        % (OUT(r), RUNK(r), BINS(r)))
+              + allrows(lambda r: "not self._drop_bins_context implies all(%s[k] == %s[yield_count()] for k in range(len(%s)))"
+                        % (OUT(r), RUNK(r), BINS(r)))
+              + PRIVATE + [
+                # C04: the context is a new deep copy at every yield; the incoming value is not changed
+                "is_deep_copy(yielded[1])", "is_fresh(yielded[1])", "made_in_iteration(yielded[1], 1)",
+                "all_keys(lambda k: k == 'value' or item(yielded[1], k) == item(%s, k))" % C,
+                # `context.value is updated with bin context (if that exists)`: the context of the example bin (cell 0) of the new bins
+                "not %s implies yielded[1] == %s" % (B0, C),
+                "%s and not ('value' in %s) implies yielded[1]['value'] == %s" % (B0, C, B0),
+                # (an existing context.value is kept, nested at the deepest level of the new one: update_nested, C07)
+                "%s and 'value' in %s implies yielded[1]['value'] == upn(%s, 'value', %s['value'])" % (B0, C, B0, C),
+                "%s == old(%s)" % (C, C),
+            ]],
+            ensures=[
+                # as many histograms as the shortest cell has results
+                # (`local` is bound on the exits after the loop only; the other exits contradict the precondition)
+            ] + allrows(lambda r: "True implies all(len(gen_content(local(generators)._generators%s, k)) >= yield_count() "
+                                  "for k in range(len(%s)))" % ("" if r is None else "[%d]" % r, BINS(r))) + [
+                "True implies " + SHORTEST, "%s == old(%s)" % (C, C)],
+            modifies=[])
+    ix.add(Contract(SB, "MapBins.run", qualkey="MapBins.run#cells", props=["C11", "C04"], dict_model="Val",
+                    cases=[build("1-d histogram", "histogram_cells", 0),
+                           build("2-d histogram with two rows", "histogram_cells2", 2)]))
+
+
+# ---------------------------------------------------------------------------------------------- IterateBins.run (selected branch)
+def _ufun(name, arg_sorts, res_sort):
+    """an uninterpreted specification function of the given SMT sorts (numbers are coerced to Real)"""
+    def sp(ip, st, pos, kws):
+        from pyvc.dicts import dterm
+        from pyvc.smt import T, to_real
+        from pyvc.sym import Opaque
+        f = ip.reg.ufun(name, arg_sorts, res_sort)
+        ts = []
+        for v, so in zip(pos, arg_sorts):
+            ts.append(dterm(ip, st, v).s if so == "Val" else to_real(ip.num(v)).s if so == "Real" else v.t.s)
+        return Opaque(T("(%s %s)" % (f, " ".join(ts)), res_sort))
+    return sp
+
+
+def register_iterate_bins(ix):
+    """class docstring: `Iterate bins of histograms`; run: `Yield histogram bins one by one. ... The resulting context is taken
+    from bin's context.  Histogram's context is preserved in context.bins.  context.bin is updated with "edges" (with bin
+    edges) and "edges_str" (their representation).  If histogram's context contains variable, that is used for edges'
+    representation.`  C11: `IterateBins enumerates every cell of such a histogram once with its own edges and context`.
+    The pass-through of values that are not selected is in P_sel.py (C10); here: a flow of ONE selected 1-dimensional
+    histogram.  Abstracted (as in P_sel.py): the user's create_edges_str (a callable taking a keyword) and the dictionary
+    display for context.bin (it holds a tuple of pairs of numbers, which the context encoding does not model) -- both are
+    functions of THIS cell's edges: edges_str_1d(create_edges_str, low, high, context.variable), bin_ctx_1d(low, high, str)."""
+    ix.spec_names["edges_str_1d"] = _ufun("edges_str_1d", ["Obj", "Real", "Real", "Val"], "V")
+    ix.spec_names["bin_ctx_1d"] = _ufun("bin_ctx_1d", ["Real", "Real", "V"], "Val")
+    # the cells of a histogram as (content, edges) pairs, for cells that are flow values
+    case = Contract(HF, "iter_bins_with_edges", name="iter_bins_with_edges[1-d, cells]",
+                    params={"bins": "Lst[V]", "edges": "Lst[Real]"}, generator=True,
+                    yields="Tuple[V,Tuple[Tuple[Real,Real]]]", ghost={"v_not_list": True},
+                    requires=["len(edges) >= 1", "len(bins) == len(edges) - 1"],
+                    loops={0: LoopSpec(invariant=[
+                        "len(out) == _i",
+                        "all(out[k] == (bins[k], ((old(edges)[k], old(edges)[k + 1]),)) for k in range(len(out)))"])},
+                    at_yield=["yielded[0] == bins[len(out)]", "yielded[1][0][0] == old(edges)[len(out)]",
+                              "yielded[1][0][1] == old(edges)[len(out) + 1]"],
+                    out_def=("len(bins)", "k", "(bins[k], ((edges[k], edges[k + 1]),))"),
+                    ensures=["len(out) == len(bins)",
+                             "all(out[k] == (bins[k], ((edges[k], edges[k + 1]),)) for k in range(len(out)))"])
+    ix.add(Contract(HF, "iter_bins_with_edges", qualkey="iter_bins_with_edges#cells", props=["C11"], cases=[case]))
+    cur = ix.by_key.get((HF, "iter_bins_with_edges"))
+    if cur is not None and cur.cases is not None and not any(c.name == case.name for c in cur.cases):
+        cur.cases.insert(0, case)
+    # update_nested (contracts/P_ctx.py, proved): callers that update the same dictionary twice need to know that it still is
+    # a dictionary afterwards (the function assigns d[key]); added to its proved postconditions
+    un = ix.by_key.get((CF, "update_nested"))
+    if un is not None and not un.cases and "isdict(d)" not in un.ensures:
+        un.ensures.append("isdict(d)")
+    ix.add_class(ClassSpec("IterateBins_c", SB, alias_of="IterateBins",
+                           fields={"_create_edges_str": "Obj", "_select_bins": "Inst[Selector]"}))
+    H = "flow[0][0]"
+    C = "flow[0][1]"
+    X = "dataof(%s.bins[0])" % H
+    CELL = "%s.bins[_i1]" % H
+    LO, HI_ = "%s.edges[_i1]" % H, "%s.edges[_i1 + 1]" % H
+    BINV = lambda v: "bin_ctx_1d(%s, %s, edges_str_1d(self._create_edges_str, %s, %s, %s))" % (LO, HI_, LO, HI_, v)
+    HASV = "'variable' in %s" % C
+    ix.add(Contract(
+        SB, "IterateBins.run", qualkey="IterateBins.run#cells", props=["C11"], dict_model="Val",
+        name="IterateBins.run[one selected 1-d histogram]",
+        ghost={"v_not_list": True, "ctx_wf": ["kchain(c, 'bins')", "kchain(c, 'bin')"]},
+        params={"self": "Self[IterateBins_c]", "flow": "PyList[1,Tuple[Inst[histogram_cells],Dict]]"},
+        generator=True, yields="Any",
+        requires=[inv.replace("self.", H + ".") for inv in ix.classes["histogram_cells"].invariant] + [
+            "isdict(%s)" % C, "kchain(%s, 'bins')" % C,
+            "not el_call_raises(self._select_bins._selector, %s)" % X, "el_call(self._select_bins._selector, %s)" % X],
+        abstract={"edges_str": ("V", "edges_str == edges_str_1d(self._create_edges_str, bin_edges[0][0], bin_edges[0][1], "
+                                     "split_var_context)"),
+                  "context_bin": ("Dict", "context_bin == bin_ctx_1d(bin_edges[0][0], bin_edges[0][1], edges_str) and "
+                                          "isdict(context_bin) and kchain(context_bin, 'bin')")},
+        loops={1: LoopSpec(invariant=["yield_count() == _i1", "%s == old(%s)" % (C, C)])},
+        at_yield=["in_loop(1)"] + ["in_loop(1) implies " + cl for cl in [
+            # every cell once, in order: the _i1-th yield is cell _i1
+            "yield_count() == _i1",
+            "isinstance(yielded, tuple) and len(yielded) == 2",
+            "yielded[0] == dataof(%s)" % CELL,
+            # `the resulting context is taken from bin's context`: nothing of it changes but context.bins and context.bin
+            "all_keys(lambda k: k == 'bins' or k == 'bin' or item(yielded[1], k) == item(vctx(%s), k))" % CELL,
+            # `histogram's context is preserved in context.bins` (a copy of it)
+            "not ('bins' in vctx(%s)) implies yielded[1]['bins'] == %s" % (CELL, C),
+            "'bins' in vctx(%s) implies yielded[1]['bins'] == upn(%s, 'bins', vctx(%s)['bins'])" % (CELL, C, CELL),
+            # `context.bin is updated with edges and edges_str`: of THIS cell
+            # (`if histogram's context contains variable, that is used for edges' representation`, else None)
+            "%s and not ('bin' in vctx(%s)) implies yielded[1]['bin'] == %s" % (HASV, CELL, BINV(C + "['variable']")),
+            "not %s and not ('bin' in vctx(%s)) implies yielded[1]['bin'] == %s" % (HASV, CELL, BINV("None")),
+            "%s and 'bin' in vctx(%s) implies yielded[1]['bin'] == upn(%s, 'bin', vctx(%s)['bin'])" % (
+                HASV, CELL, BINV(C + "['variable']"), CELL),
+            "not %s and 'bin' in vctx(%s) implies yielded[1]['bin'] == upn(%s, 'bin', vctx(%s)['bin'])" % (
+                HASV, CELL, BINV("None"), CELL),
+            # the histogram's own context is only copied
+            "%s == old(%s)" % (C, C),
+        ]],
+        ensures=["yield_count() == len(%s.bins)" % H, "%s == old(%s)" % (C, C)],
         modifies=[]))
+
+
+# ---------------------------------------------------------------------------------------------- cell_to_string
+def register_cell_to_string(ix):
+    """docstring: `Transform cell edges into a string.  cell_edges is a tuple of pairs (lower bound, upper bound) for each
+    coordinate.  coord_names is a list of coordinates names.  coord_fmt is a string, which defines how to format individual
+    coordinates.  coord_join is a string, which joins coordinate pairs.  If reverse is True, coordinates are joined in
+    reverse order.`  IterateBins.__init__: `var_context is variable context containing variable names`.  Signature defaults:
+    coord_fmt="{}_lte_{}_lt_{}", coord_join="_".  Every coordinate is formatted from ITS pair of edges and ITS name, low edge
+    first; the coordinates are joined in order (reversed iff `reverse`).  The text of a number is an uninterpreted function
+    of the number (pyvc/lib_graph.py).  A variable context is a dictionary with the key `name` (typed KwDict[name:Str]); the
+    `combine` list of a Combine variable (a list of dictionaries inside a context) is not modelled."""
+    FMT = "'{{}}_lte_{{}}_lt_{{}}'.format(cell_edges[{d}][0], {name}, cell_edges[{d}][1])"
+    DEF = {"var_context": None, "coord_names": None, "coord_fmt": "{}_lte_{}_lt_{}", "coord_join": "_", "reverse": False}
+    P = {"cell_edges": None, "var_context": None, "coord_names": "None", "coord_fmt": "Str['{}_lte_{}_lt_{}']",
+         "coord_join": "Str['_']", "reverse": "Bool"}
+    E1, E2 = "Tuple[Tuple[Real,Real]]", "Tuple[Tuple[Real,Real],Tuple[Real,Real]]"
+    c0 = FMT.format(d=0, name="'coord{}'.format(0)")
+    c1 = FMT.format(d=1, name="'coord{}'.format(1)")
+
+    def case(name, edges, vc, **kw):
+        return Contract(HF, "cell_to_string", name="cell_to_string[%s]" % name, ghost={"str_format": True},
+                        params=dict(P, cell_edges=edges, var_context=vc), defaults=DEF, result="Str", modifies=[], **kw)
+    ix.add(Contract(
+        HF, "cell_to_string", props=["C11"],
+        cases=[
+            case("1-d, a variable with a name", E1, "KwDict[name:Str]",
+                 ensures=["result == " + FMT.format(d=0, name="var_context['name']")]),
+            case("1-d, no variable context", E1, "None", ensures=["result == " + c0]),
+            case("2-d, no variable context", E2, "None",
+                 ensures=["not reverse implies result == %s + '_' + %s" % (c0, c1),
+                          "reverse implies result == %s + '_' + %s" % (c1, c0)]),
+        ]))
+    # OPEN finding of C11 (known_findings.json: IterateBins raises for the 2-dimensional histogram of ONE plain Variable that
+    # returns a pair): one name for two coordinates.  Documented here, not attached to a property.
+    ix.add(Contract(HF, "cell_to_string", qualkey="cell_to_string#one-name-two-coordinates", props=[],
+                    cases=[case("2-d, a single variable with a name", E2, "KwDict[name:Str]",
+                                raises={"LenaValueError": "True"})],
+                    notes="documents the open C11 finding; deliberately not attached to a property"))
